@@ -36,7 +36,7 @@ ID = "C06"
 LEVEL = "fault_enumeration"
 TECHNIQUE = "fault/schedule enumeration of spawn programs (gate scheduler DFS) with done()-at-exit sampling and quiescence (hang) detection"
 RULE = (
-    "cases = (program: spawn sites x task scripts x body outcome, schedule); programs with <= 2 tasks are enumerated completely (8 scripts x 3 spawn sites x 4 body outcomes), "
+    "cases = (program: spawn sites x task scripts x body outcome, schedule); programs with <= 2 tasks are enumerated completely (9 scripts x 3 spawn sites x 4 body outcomes), "
     "3-4 task programs with grandchildren and a nested async scope are sampled; schedules by DFS up to a cap, random beyond; non-trivial = at least one task was still pending "
     "when the body ended; distinct by (program, schedule hash)"
 )
@@ -53,7 +53,7 @@ LEVEL_TEXT = (
 )
 LEVEL_NOTE = "Trusted: lexical owner attribution of spawn sites (innermost enclosing async scope, inherited by spawned tasks), gate scheduler, VirtualLoop quiescence detection."
 
-SCRIPTS = ("now", "gate", "fail", "gate-fail", "forever", "spawn-now", "spawn-gate", "gate-spawn-gate")
+SCRIPTS = ("now", "gate", "fail", "gate-fail", "forever", "spawn-now", "spawn-gate", "gate-spawn-gate", "forever-spawn-on-cancel")
 SITES = ("plain", "sscope", "updated")
 BODIES = ("return", "raise-exc", "cancel-self", "raise-base")
 DFS_CAP = {"quick": 60, "thorough": 400}
@@ -71,6 +71,10 @@ def script_steps(script: str, name: str, owner: str, counter: Any) -> list[dict[
         return [{"op": "gate", "label": f"{name}.g"}, {"op": "fail", "tag": name}]
     if script == "forever":
         return [{"op": "forever", "tag": name}]
+    if script == "forever-spawn-on-cancel":
+        # blocked until cancelled; its cancellation handler tries to spawn a follow-up job into the (aborting) scope
+        g3 = f"{name}.gc{next(counter)}"
+        return [{"op": "forever", "tag": name, "on_cancel": [{"op": "spawn", "via": "ctx", "name": g3, "owner": owner, "body": script_steps("gate", g3, owner, counter)}]}]
     if script == "gate-spawn-gate":
         # the task spawns its own child only after it was released - possibly after the body has already left the block
         g2 = f"{name}.gc{next(counter)}"
@@ -114,7 +118,7 @@ def will_abort(case: dict[str, Any], inner: bool) -> bool:
 
 def valid(case: dict[str, Any]) -> bool:
     for s, _, inner in case["tasks"]:
-        if s == "forever" and not will_abort(case, inner):
+        if s.startswith("forever") and not will_abort(case, inner):
             return False
     return True
 
@@ -192,7 +196,7 @@ def judge(R: Recorder, case: dict[str, Any], chooser: Chooser, W: World, status:
               detail=f"blocks raised unscripted errors: {odd!r}; events={ev}", case=rec)
     # forever blockers must have been cancelled
     for i, (script, _, _) in enumerate(case["tasks"]):
-        if script == "forever" and f"t{i}" in W.tasks:
+        if script.startswith("forever") and f"t{i}" in W.tasks:
             t = W.tasks[f"t{i}"]
             seen = ("forever-cancelled", f"t{i}") in ev
             R.monitor("forever-cancelled", t.done() and (t.cancelled() or seen), where={**w0, "kind": "blocker-not-cancelled"},
@@ -285,7 +289,7 @@ def explore(R: Recorder, case: dict[str, Any], rng: random.Random, cap: int) -> 
 
 
 def run(R: Recorder, tier: str, seed: int, shard: int, nshards: int) -> None:
-    R.flags["exhaustive_core"] = "all programs with <= 2 spawned tasks (8 scripts x 3 spawn sites x 4 body outcomes) x all gate-release orders (capped)"
+    R.flags["exhaustive_core"] = "all programs with <= 2 spawned tasks (9 scripts x 3 spawn sites x 4 body outcomes) x all gate-release orders (capped)"
     if shard == 0:
         detached(R)
     rng_cases = random.Random(f"C06/{seed}")
